@@ -6,7 +6,7 @@
 From Coq Require Import Reals Arith List QArith Qcanon Lra Lia String.
 From Coquelicot Require Import Coquelicot.
 From QV.Core Require Import OF Sums Mat QcOF ROF.
-From QV.Model Require Import C12_Loss C12_Mixed C12_Dispatch.
+From QV.Model Require Import C12_Loss C12_Mixed C12_Dispatch C12_Skeleton.
 From QV.Proofs Require Import C12_Loss C12_Config C12_RelEntropy C12_RelEntropyR C12_CovPD C12_PDInverse C12_Mixed C12_Dispatch C12_Main.
 Import ListNotations.
 
@@ -154,6 +154,22 @@ Theorem C12_decision_tables : forall (R : CR),
   (forall mw, option_accepts se_modes mw true = OOk (Some "custom"%string) /\ option_accepts re_modes mw true = OOk (Some "custom"%string)).
 Proof. exact main_decision_tables. Qed.
 Print Assumptions C12_decision_tables.
+
+(* the call skeletons of the configuration code (ordered guarded events of set_from_standard_qtomography_option_data, of the
+   cache rebuilds, of the overridden setters; coq/gen/C12_Equiv.v re-proves the same for the skeletons REGENERATED from the
+   source on every run), given their meaning in Model/C12_Skeleton.v, are exactly the steps of the state machine, for both
+   flags, every mode, every object state *)
+Theorem C12_call_skeletons_are_the_state_machine : forall (R : CR) m gr he oid md (c : @wts R) k (os : @ostate R)
+    (cur : @wts R * option nat) (cm : bool) (cr : option (@vec R)) (ros : @rostate R) (w : @wts R) (st : @fstate R)
+    hasq (wr : option (@vec R)) (rs : @rstate R),
+  sem_config_fast m sk_se_bodies sk_config gr he oid (action_of md) c k os = step_fast_o m (OConfig oid md c k) os /\
+  sem_config_generic sk_config gr he oid (action_of md) c k cur = step_generic_o (OConfig oid md c k) cur /\
+  sem_config_re_fast m sk_re_bodies sk_config gr he oid (re_dispatch (Some (if cm then "custom" else "identity")%string)) cr ros
+    = step_re_fast_o m (ROConfig oid cm cr) ros /\
+  sem_setter (sem_calc_ext m (sb_calc sk_se_bodies)) (sb_setter sk_se_bodies) w st = set_direct_fast m w st /\
+  sem_setter_re (sem_calc_ew m (sb_calc sk_re_bodies)) (sb_setter sk_re_bodies) hasq wr rs = set_weights_re_fast m hasq wr rs.
+Proof. exact main_call_skeletons_are_the_state_machine. Qed.
+Print Assumptions C12_call_skeletons_are_the_state_machine.
 
 (* the result of a configuration depends only on (mode, option weights, data), not on the object's history *)
 Theorem C12_configuration_history_independent : forall (R : CR) m md (c : @wts R) k (cur cur' : @wts R) (st st' : @fstate R),
